@@ -4,7 +4,7 @@ From BV Require Import Base.Prelude Model.Block Model.ForkDB Model.Forkable Mode
   Model.Burst Model.Hub Model.CursorResolver Model.Joining
   Spec.Consumer Spec.Universe Check.Burst_Check Check.C07_Check Spec.C06_Spec Spec.C07_Spec Spec.C09_Spec Spec.C13_Spec
   Spec.C07_Compose_Spec Spec.C07_Shapes_Spec Spec.C07_More_Spec Spec.C13_More_Spec
-  Proofs.C07_Shapes Proofs.C13_More Properties.C07_Compose Properties.C07_More.
+  Proofs.C07_Shapes Proofs.C13_More Proofs.C07_FiltersTarget Proofs.C07_FiltersCursor Proofs.C07_TargetRefuted Properties.C07_Compose Properties.C07_More.
 Local Open Scope N_scope.
 
 (* every filter, stop block, mode, world, schedule: the three shapes of the raw sequence of a run and what the handler
@@ -23,9 +23,42 @@ Theorem c13_stop_over_raw : C13_stop_over_raw.
 Proof. exact c13_stop_over_raw_proof. Qed.
 Print Assumptions c13_stop_over_raw.
 
+(* the stop clause at stream level in target-cursor mode: a run that ends with stop-block-reached holds canon from the start
+   point up to block S itself (target cursor not beyond the stop block; no agreement hypothesis) *)
+Theorem c13_stop_target : C13_stop_target.
+Proof. exact c13_stop_target_proof. Qed.
+Print Assumptions c13_stop_target.
+
+(* ... and in cursor mode (the stop block a block of the chain beyond the cursor block) *)
+Theorem c13_stop_cursor : C13_stop_cursor_holds.
+Proof. exact c13_stop_cursor_holds_proof. Qed.
+Print Assumptions c13_stop_cursor.
+
 (* ---- non-vacuity: the runs of Properties/C07_More.v end with stop-block-reached in number, cursor and target-cursor mode *)
 Example c13_more_nonvacuous :
   j_filter mx_c <> 1 /\ snd (stream_run mx_c cx_w [(3, 1); (12, 2)] 15 cx_merged []) = JStop /\
   j_filter mx_cc <> 1 /\ snd (stream_run mx_cc cx_w [(3, 1); (12, 2)] 15 cx_merged [cx_f9]) = JStop /\
   j_filter mx_c4 <> 1 /\ snd (stream_run mx_c4 cx_w [(3, 1); (12, 2)] 15 cx_merged []) = JStop.
 Proof. repeat split; try discriminate; vm_compute; reflexivity. Qed.
+
+(* the scope hypotheses of c13_stop_target / c13_stop_cursor hold of those runs (stop block 17; target cursor on 14 with LIB
+   12; cursor below 17), whose other hypotheses are c07_more_nonvacuous_target / c07_more_nonvacuous_cursor; the runs end
+   with stop-block-reached on block 17 *)
+Example c13_stop_nonvacuous :
+  rn (cu_blk cx_cu4) <= j_stop mx_c4 /\ cursor_lib_on cx_canon cx_cu4 (cx_b 14) /\
+  rn (cu_blk cx_cu) < j_stop mx_cc /\ (exists bS, In bS cx_canon /\ bnum bS = j_stop mx_cc) /\
+  map (fun e => bnum (eblk e)) (rev (fst (stream_run mx_c4 cx_w [(3, 1); (12, 2)] 15 cx_merged []))) <> [] /\
+  hd_error (rev (map (fun e => bnum (eblk e)) (fst (stream_run mx_c4 cx_w [(3, 1); (12, 2)] 15 cx_merged [])))) = Some 17 /\
+  hd_error (rev (map (fun e => bnum (eblk e)) (fst (stream_run mx_cc cx_w [(3, 1); (12, 2)] 15 cx_merged [cx_f9])))) = Some 17.
+Proof.
+  split; [vm_compute; discriminate|].
+  split; [exists (cx_b 12); split; [vm_compute; tauto|]; split; [reflexivity|]; split; [vm_compute; discriminate | intros H; discriminate]|].
+  split; [vm_compute; reflexivity|].
+  split; [exists (cx_b 17); split; [vm_compute; tauto | reflexivity]|].
+  split; [vm_compute; discriminate|]. split; vm_compute; reflexivity.
+Qed.
+
+(* the scope hypothesis of c13_stop_target is needed (target cursor beyond the bundle of the stop block) *)
+Theorem c13_stop_target_scope_needed : C13_stop_target_scope_needed.
+Proof. exact c13_stop_target_scope_needed_proof. Qed.
+Print Assumptions c13_stop_target_scope_needed.
